@@ -294,7 +294,8 @@ int main(int argc, char **argv) {
     std::string v; run_history(h, v, true); return 0;
   }
   size_t depth = argc > 3 ? atoi(argv[3]) : 6; int maxreq = argc > 4 ? atoi(argv[4]) : 3;
-  hx::Explorer<Op> ex; ex.name = g_transport + "/" + g_engine;
+  bool keep_only = argc > 5 && !strcmp(argv[5], "keeponly");     // lane: longer pipelines of plain keep-alive requests, every completion order
+  hx::Explorer<Op> ex; ex.name = g_transport + "/" + g_engine; if (argc > 5) ex.name += std::string("/") + argv[5];
   ex.deadline_s = hx::deadline_from_env(600);
   ex.fork_workers = (int)hx::env_int("VERIF_WORKERS", 4);
   ex.child_timeout_s = 120; ex.max_viol_print = 1000000;     // the per-signature limit (3) still applies
@@ -306,6 +307,7 @@ int main(int argc, char **argv) {
   ex.menu = [&](const std::vector<Op> &h) {
     std::vector<Op> m; int nreq = 0; bool glued_open = false, bad = false;
     for (auto &o : h) { if (o.k == REQ) { nreq++; glued_open = (o.seg == GLUED); } if (o.k == RAW) { bad = true; glued_open = false; } }
+    if (keep_only) { if (nreq < maxreq) for (int seg : {GLUED, ALONE}) for (int d : {0, 1, 2}) m.push_back({REQ, KEEP, d, seg}); if (!glued_open) m.push_back({PASS, 0, 0, 0}); return m; }
     if (nreq < maxreq && !bad) {
       for (int seg : {ALONE, GLUED}) for (int kind : {KEEP, CLOSE, HTTP10}) for (int d : {0, 1, 2}) m.push_back({REQ, kind, d, seg});
       for (int kind : {KEEP, CLOSE, HTTP10}) for (int d : {0, 1}) m.push_back({REQ, kind, d, CUT});
